@@ -8,6 +8,7 @@ def _runs(tier, _NG=_NG):
     # the heaviest groups first (3 runs at a time); the budget is a cap, not the expected time: the new groups
     # complete in 20-130 s each on an idle machine, but the machine is usually shared
     order = [7, 9, 10] + [g for g in range(1, _NG + 1) if g not in (7, 9, 10)]
-    return [{"harness": "c13_g%d" % g, "args": ["--depth", d], "budget": (420 if g >= 7 else 240) if tier == "quick" else 2400} for g in order]
+    return [{"harness": "c13_g%d" % g, "args": ["--depth", d], "budget": (420 if g >= 7 else 240) if tier == "quick" else 1500} for g in order]
 
-CHECKS = {"C13": {"runs": _runs, "level": "model_checking", "parallel_runs": 3, "deadline": {"quick": 420, "thorough": 2700}}}
+# thorough: 12 groups, 4 at a time, at most 25 min each (depth 3 is cut at the budget with exhaustive=false)
+CHECKS = {"C13": {"runs": _runs, "level": "model_checking", "parallel_runs": 3, "parallel_runs_thorough": 4, "deadline": {"quick": 420, "thorough": 1700}}}
